@@ -21,7 +21,7 @@ func init() {
 		Rule: "a response script = constructor in {NewResponse, NewBindResponse, NewSearchDoneResponse, NewSearchResponseEntry, NewExtendedResponse, NewModifyResponse} x a PRNG-chosen subset of that " +
 			"constructor's documented options x 0..4 setters (SetResultCode, SetDiagnosticMessage, SetMatchedDN, SetControls, AddAttribute) with values from an adversarial pool (result codes 0..32767, application " +
 			"codes 0..30, empty/binary/invalid-UTF-8 strings, 127/128/65535/65536/200000-byte strings, 0..n attributes x 0..m values, all control kinds); the handler runs the script for a request whose message ID is drawn " +
-			"from 0..2^31-1, and the strict parser checks the one frame it produced against a last-writer-wins model (fields never set are unconstrained). " +
+			"from 0..2^31-1, and the strict parser checks the one frame it produced against a last-writer-wins model (fields never set are unconstrained). A quarter of the single-response requests write their response object also before some of their setters (each write must show the state at that point); a fifth of the connections park a request and let a LATER request's handler answer it through its own writer (the frame must still carry the parked request's message ID); a third of the requests get 2..3 responses. " +
 			"distinct_nontrivial = distinct (constructor, option subset, setter sequence, length classes, message-id class) signatures",
 		Assume: []string{"the library's defaults for fields the handler never set (\"Unused\", result code 0/53) are not asserted",
 			"ExtendedResponse.SetResponseName is not encoded by gldap and is outside the statement's field list"},
